@@ -114,6 +114,7 @@ class Flow:
     def __init__(self, prog: Program, cg: CallGraph):
         self.prog = prog
         self.cg = cg
+        self._rhs_stmt: Dict[int, ast.Assign] = {}
         self._defs_cache: Dict[int, Dict[str, List[Tuple[str, ast.AST, Any]]]] = {}
         self._stores_cache: Optional[Dict[str, List[Tuple[FunctionInfo, ast.AST, str, Any]]]] = None
         self._stop: Set[FunctionInfo] = set()
@@ -309,6 +310,8 @@ class Flow:
 
         for n in fn_nodes(fn):
             if isinstance(n, ast.Assign):
+                if len(n.targets) == 1 and isinstance(n.targets[0], ast.Name):
+                    self._rhs_stmt[id(n.value)] = n
                 for t in n.targets:
                     bind(t, n.value, ())
             elif isinstance(n, ast.AnnAssign) and n.value is not None:
@@ -401,10 +404,13 @@ class Flow:
             return
         octx = ctx if owner is f else ()
         defs = self._defs(owner).get(name, [])
-        if name in owner.params:
+        reach = self._reaching(owner, name, node, defs) if owner is f else None
+        if name in owner.params and (reach is None or reach[1]):
             out.append((owner, ("param", name), p, octx, post))
         for kind, dn, extra in defs:
             if kind == "assign":
+                if reach is not None and id(dn) in self._rhs_stmt and id(dn) not in reach[0]:
+                    continue  # a plain assignment that is overwritten on every path to this use
                 out.append((owner, dn, tuple(extra) + p, octx, post))
             elif kind == "except":
                 res.leaves.add(Leaf("exception", name, (), post))
@@ -423,6 +429,36 @@ class Flow:
                     out.append((owner, rhs, tuple(prefix), octx, post))
             elif kind == "mut-call":
                 self._mut_call(owner, dn, extra, p, octx, post, out)
+
+    def _reaching(self, fn: FunctionInfo, name: str, use: ast.AST, defs):
+        """(ids of the right-hand sides of the plain `name = v` statements that reach `use`, does the initial (parameter) value reach it) - or None when
+        the use is not in the CFG or the name has fewer than two sources (then flow-insensitive slicing loses nothing)"""
+        plain = [self._rhs_stmt[id(dn)] for kind, dn, _e in defs if kind == "assign" and id(dn) in self._rhs_stmt]
+        if len(plain) + (1 if name in fn.params else 0) < 2:
+            return None
+        from .cfg import cfg_of
+        cfg = cfg_of(fn)
+        un = cfg.node_of(use)
+        if un is None:
+            return None
+        nodes = [(st, cfg.node_of(st)) for st in plain]
+        if any(c is None for _s, c in nodes):
+            return None
+        cn = [c for _s, c in nodes]
+
+        def arrives(starts, blocked) -> bool:
+            # the use is evaluated before the statement it sits in stores anything: arriving AT a blocked node that is the use node counts
+            bl = [b for b in blocked if b is not un]
+            return any(s_ is un or un in cfg.reachable(s_, blocked=bl) for s_ in starts if s_ not in bl)
+
+        got = set()
+        for st, c in nodes:
+            others = [x for x in cn if x is not c]
+            succs = [s_ for s_, lab in cfg.succ[c] if lab != "exc"]
+            if arrives(succs, others + ([c] if c is not un else [])):
+                got.add(id(st.value))
+        initial = arrives([cfg.entry], cn)
+        return got, initial
 
     def _mut_call(self, fn, call: ast.Call, meth: str, p, ctx, post, out) -> None:
         if meth in MUTATORS_VALUE:
